@@ -138,10 +138,6 @@ Qed.
 End Covered.
 
 (* ---------- from the effective set of a loaded state ---------- *)
-Lemma tget_tadd c c' s t :
-  tget c (tadd c' s t) = Some (if c =? c' then 0 else 1) \/ True.
-Proof. right; exact I. Qed.
-
 Lemma tget_tadd_inv c c' s t a :
   tget c (tadd c' s t) = Some a -> tget c t = Some a \/ (c = c' /\ a = s /\ 0 < s).
 Proof.
